@@ -272,6 +272,9 @@ def main():
         for t in theorems:
             c.oblige("theorem " + t, False, "build failed")
     c.cov["theorems"] = len(theorems)
+    c.cov["passes"] = PASS_STATUS
+    c.cov["modelled_only"] = [k for k, v in PASS_STATUS.items() if "ONLY" in v]
+    c.cov["chain_theorems"] = CHAIN_THEOREMS
 
     if hb is None or not okb or not okd:
         # no driver / no harness: still try to find a concrete failing input with the oracle alone
@@ -399,6 +402,32 @@ def main():
              explanation="Passes with a Lean model tied by correspondence only (no preservation theorem yet) are listed in cov.modelled_only; "
                          "the full statements C06_<lang>_full are refuted in Lean (counterexample theorems) and the refuting inputs are replayed on the real chains on every run.")
 
+
+PASS_STATUS = {
+    "AnonymousStructsToNamed": "model+correspondence; post (StructsNamedOutsideAllOf, any wfIR input); keeps SimpleIndex and leaf entry points",
+    "NotRequiredFieldAsNullableType": "model+correspondence; post (NonRequiredNullable given SimpleIndex); keeps every Mono/DisjConst test",
+    "DisjunctionWithNullToOptional": "model+correspondence; post (NoNullPairUnion given FlatUnions); keeps every Mono test",
+    "DisjunctionOfConstantsToEnum": "model+correspondence; keeps every test that does not constrain enums",
+    "AnonymousEnumToExplicitType": "model+correspondence; post (EnumsNamed, any input with leaf entry points); no preservation lemma for other tests yet",
+    "PrefixEnumValues": "model+correspondence; post (Go enum prefixes, any input); keeps every test that ignores member names",
+    "FlattenDisjunctions": "model+correspondence; keeps every test that ignores the branch list of a union; keeps Go enum prefixes",
+    "DisjunctionOfAnonymousStructsToExplicit": "model+correspondence; keeps every Shape test; keeps Go enum prefixes",
+    "DisjunctionInferMapping": "model+correspondence; keeps every test; keeps Go enum prefixes",
+    "UndiscriminatedDisjunctionToAny": "model+correspondence; keeps every test that ignores Nullable (it does NOT keep NonRequiredNullable: the `any` it creates is not nullable)",
+    "DisjunctionToType": "model+correspondence; post (NoUnion given FlatUnions); keeps every Shape test; keeps Go enum prefixes",
+    "RemoveIntersections": "model+correspondence (shared field slices modelled); keeps every test that ignores fields",
+    "SanitizeEnumMemberNames": "model+correspondence; post (PHP member names given EnumsNamed); keeps every test that ignores member names",
+    "RenameNumericEnumValues": "model+correspondence; post (no numeric member names given EnumsNamed and names in int range); keeps every test that ignores member names",
+    "InlineObjectsWithTypes": "model+correspondence ONLY (store threaded in visiting order to reproduce the declaration-order dependence); no theorem yet",
+}
+
+CHAIN_THEOREMS = {
+    "go": ["C06_go_EnumsNamed (all wfIR inputs)", "C06_go_EnumNames (all inputs)", "NoUnion/NoNullPairUnion/NonRequiredNullable/StructsNamedOutsideAllOf: refuted (counterexamples), pass-level post-conditions only"],
+    "java": ["C06_java_EnumsNamed (all wfIR inputs)", "other conjuncts: refuted (counterexamples), pass-level post-conditions only"],
+    "php": ["no chain-level theorem (last pass InlineObjectsWithTypes has no preservation lemma); full statement refuted; C06_post_SanitizeEnumMemberNames"],
+    "python": ["C06_python_StructsNamedOutsideAllOf (all wfIR inputs)", "C06_python_NonRequiredNullable_partial (SimpleIndex)", "NoNullPairUnion, EnumNames: refuted"],
+    "typescript": ["C06_typescript_partial (EnumsNamed and NumericNamesInRange)", "full statement refuted"],
+}
 
 CHECKER = "cd /verif/lean && lake build Cog.Props.C06 drv && lake env lean <#print axioms of the C06_* theorems>; harness streams c06-ucc/c06-pass/c06-chain vs. drv"
 RULE = ("random IRs (shared generator + injected deep shapes, object order permuted): every pass alone and after a real chain prefix, every language chain; "
